@@ -256,10 +256,16 @@ def run(spec):
         V = solve_poisson_robust(mg, rho, inv, np.array(spec['atnums']), np.array(centers),
                                  split2=spec.get('split2', False), alphas_basis=ab, **kw)
         err = float(np.max(np.abs(V(pts) - _ref(pts, g))))
-        # the same tabulated density solved again (other split option): must still be the potential of rho
-        V2 = solve_poisson_robust(mg, rho, inv, np.array(spec['atnums']), np.array(centers),
-                                  split2=not spec.get('split2', False), alphas_basis=ab, **kw)
-        err = max(err, float(np.max(np.abs(V2(pts) - _ref(pts, g)))))
+        if spec.get('vs_plain'):
+            # "agrees with the plain solver on smooth densities": same grid, same tabulated density, same options; both are
+            # accurate to ~5e-4 here, so their difference is held to 0.3 of the accuracy threshold
+            Vp = solve_poisson_bvp(mg, rho, inv, **kw)
+            err = max(err, float(np.max(np.abs(V(pts) - Vp(pts)))) / 0.3)
+        else:
+            # the same tabulated density solved again (other split option): must still be the potential of rho
+            V2 = solve_poisson_robust(mg, rho, inv, np.array(spec['atnums']), np.array(centers),
+                                      split2=not spec.get('split2', False), alphas_basis=ab, **kw)
+            err = max(err, float(np.max(np.abs(V2(pts) - _ref(pts, g)))))
         if not spec['gauss']:
             return err, spec['exact_core_atol'], 'robust solver on its own core model vs analytic core potential'
         return err, spec['atol_unit'] * sum(abs(c) for c, _, _ in g), 'robust solver vs analytic potential'
@@ -1417,6 +1423,14 @@ def _cases(ctx: Ctx, budget: str):
             add("poisson.solve_poisson_bvp:homogeneity", kind="homog", grid=_g2(ctx, deg=11, n=ctx.rng.randrange(50, 71)), atoms=[Z], gauss=_offcentre(ctx, Z, 1),
                 a=float(f"{ctx.rng.choice([1, -1]) * 10.0 ** expo * ctx.rng.uniform(1, 3):.3e}"),
                 options={"include_origin": False, "remove_large_pts": 10.0})
+        # robust solver on a molecular grid, residual with net charge on both atoms, ODE range ending at a moderate radius
+        at2 = _molecule(ctx, 2)
+        add("robust_poisson.solve_poisson_robust:molecular", kind="robust", grid=_g2(ctx, deg=ctx.rng.choice([13, 15])), atoms=at2, symbols=["H", "H"], atnums=[1, 1],
+            gauss=[(round(ctx.rng.uniform(0.4, 1.0), 3), _alpha(ctx, 0.5, 2.5), at2[0]), (round(ctx.rng.uniform(0.3, 0.9), 3), _alpha(ctx, 0.5, 2.5), at2[1])],
+            split2=False, vs_plain=True, options={"remove_large_pts": 10.0, "include_origin": False})
+        # (split2=True on a molecular grid is outside the envelope with a truncated ODE range: the unweighted greedy NNLS fit puts
+        #  tens of units of charge on its most diffuse exponent 0.05, the remaining residual reaches beyond 20 bohr; measured on the
+        #  pinned tree: error 0.2 with remove_large_pts=10, 1.4e-2 with 25 -- scope note in DESIGN 8.3)
         # robust
         sym, zn = ctx.rng.choice([("H", 1), ("C", 6)])
         add("robust_poisson.solve_poisson_robust:exact-core", kind="robust", grid=_g1(ctx, deg=11), atoms=[Z], symbols=[sym], atnums=[zn], gauss=[],
